@@ -321,4 +321,4 @@ def replay(path):
     for f in fails:
         print('FAILS:', f['key'], f['what'][:400])
     print('replay: %s' % ('property violated' if fails else 'property holds on this input'))
-    return 1 if fails else 0
+    return common.replay_status(PID, fails)
